@@ -15,7 +15,8 @@ RULE = ("structure function: 2-D arrays (a,b), a,b in 2..48 square and not, step
         "axes; oracle = slow DFT along the frame axis, squared modulus, mean / standard error over sub-apertures, bins "
         "0..floor(n/2)-1; quadratic scaling, Parseval with the dropped bins computed independently, sinusoid peak, "
         "frequency axis k*rate/n. Non-trivial: non-square phase or step>=2; odd frame count or leading axes."
-        " Also: 1025-20000 sub-apertures with few frames, phases up to 66 x 16385; every returned array is overwritten and an equal call must still return the saved result.")
+        " Also: 1025-20000 sub-apertures with few frames, phases up to 66 x 16385; every returned array is overwritten and an equal call must still return the saved result."
+        " The phase also Fortran-ordered, as a transposed view and as a strided slice (equal to rounding).")
 ASSUMPTIONS = ["lags that do not exist along the first axis (j*step >= shape[0]) are not judged",
                "tolerances 1e-10 relative (double precision sums)"]
 
